@@ -140,6 +140,11 @@ def run(ctx):
                       label="L1: 4 blocks, 3 events, 1 reorg, 1 failure, 1 write failure, 1 restart, chunk {1,2,10}")
         ctx.tlc_check(FAMILY, "L1.tla", "L1_thorough2.cfg", timeout=3000,
                       label="L1: 3 blocks, 3 events, 2 reorgs, 2 failures, 1 write failure, no restart, chunk {1,2,10}")
+        s_ = ctx.tlc_check(FAMILY, "L1.tla", "L1_x_stop.cfg", timeout=600, expect_violation=True,
+                           label="L1 reachability: a failed write of the head stops the client (expected violation of NeverStopped)")
+        if s_["violated"] != "NeverStopped":
+            raise vlib.Broken("vacuity: the stop after a failed write is not reachable (%s)" % s_["violated"])
+        ctx.tlc_runs[-1]["expected_violation"] = "NeverStopped (reachability)"
     # the write-fault mechanisms that can fail, each as a model that MUST violate its property
     for cfg, prop, label in (
             ("L1_x_swallow.cfg", "RunningImpliesRecorded", "tick path swallows a failed write of the head"),
@@ -232,7 +237,7 @@ def run(ctx):
     probe = None
     for r_ in runs:
         idx = [i for i, e in enumerate(r_) if e["ev"] == "Stopped"]
-        if idx and r_[idx[0] + 2]["ev"] == "Restart":
+        if idx and len(r_) > idx[0] + 3 and r_[idx[0] + 2]["ev"] == "Restart":
             probe = [dict(e) for e in r_[:idx[0]]] + [dict(e) for e in r_[idx[0] + 3:]]
             break
     if probe is None:
